@@ -141,6 +141,26 @@ C14_1D(tk) ==
                       ELSE [k |-> "sqrt", nd |-> 0, v |-> Div(SScaleVarR(tk), RSt(SScaleN(tk), WS)),
                             scale |-> One] ]
 
+\* "c14h": the same statistics on HUGE tables (Interview batches of ~100,000 identical
+\* respondents).  Only the outputs whose spec value needs no product of two sums are
+\* emitted (means and medians; TLC's integers are 32-bit), which is exactly where the
+\* library decides "is the cumulative share exactly 50 %?" on floating-point shares that
+\* lie within 1e-5 of one half without being equal to it.
+C14H_2D(tk) ==
+  [ rows_scale_mean           |-> ScaleOut(tk, DimR, RE(tk), ScaleMean, FALSE),
+    rows_scale_median         |-> ScaleOut(tk, DimR, RE(tk), ScaleMedian, FALSE),
+    columns_scale_mean        |-> ScaleOut(tk, DimC, CE(tk), ScaleMean, FALSE),
+    columns_scale_median      |-> ScaleOut(tk, DimC, CE(tk), ScaleMedian, FALSE),
+    rows_scale_mean_margin      |-> ScaleMarginMean(tk, DimC),
+    columns_scale_mean_margin   |-> ScaleMarginMean(tk, DimR),
+    rows_scale_median_margin    |-> ScaleMarginMedian(tk, DimC),
+    columns_scale_median_margin |-> ScaleMarginMedian(tk, DimR) ]
+C14H_1D(tk) ==
+  [ scale_mean    |-> IF SNone(tk) THEN NoneV ELSE Num0(Div(R(SScaleS1(tk)), R(SScaleN(tk)))),
+    scale_median  |-> IF SNone(tk) THEN NoneV
+                      ELSE IF MedianOf(DimR, SScaleCnt(tk)) = AnyVal THEN OpenV
+                      ELSE Num0(MedianOf(DimR, SScaleCnt(tk))) ]
+
 C15_2D(tk) ==
   [ row_share_sum    |-> Num2(ShareM("row", tk, RE(tk), CE(tk))),
     column_share_sum |-> Num2(ShareM("col", tk, RE(tk), CE(tk))),
@@ -314,6 +334,8 @@ Part(tk) ==
     [] Family = "c12" /\ ND > 1 -> C12_2D(tk)
     [] Family = "c14" /\ ND = 1 -> C14_1D(tk)
     [] Family = "c14" /\ ND > 1 -> C14_2D(tk)
+    [] Family = "c14h" /\ ND = 1 -> C14H_1D(tk)
+    [] Family = "c14h" /\ ND > 1 -> C14H_2D(tk)
     [] Family = "c15" /\ ND = 1 -> C15_1D(tk)
     [] Family = "c15" /\ ND > 1 -> C15_2D(tk)
     [] Family = "c16" /\ ND > 1 -> C16_2D(tk)
